@@ -147,7 +147,7 @@ def work_zoo(item):
 
 SITES = ['AddVariable', 'SetEquationRightHandSide', 'AddCashFlow-eqn', 'AddTermToEquation', 'AddSupplier-eqn', 'GenerateAssetWeighting',
          'AddGlobalEquation', 'AddVariable-self', 'AddTermToEquation-after-blob', 'AddTermToEquation-product', 'AddCashFlow-product-term', 'Equation-parsed-product']
-TEMPLATES = ['{N}', '2*{N} + 1', '({N} - 3)*{N}', '{N}/4 + LOCALX']
+TEMPLATES = ['{N}', '2*{N} + 1', '({N} - 3)*{N}', '{N}/4 + LOCALX', 'max(5.0, {N})', 'max(LOCALX,{N}) - min(2.0 , {N})', 'float(LOCALX < {N})']
 
 
 def site_cases(tier):
@@ -302,8 +302,8 @@ def work_site(case):
     lagf = canonical(model, host, 'LAG_F')
     D = Decider()
     try:
-        intended = to_z3(intended_txt, lambda n: var(referent) if n == '__REF__' else (var(hostx) if n == '__HOSTX__' else (var(second) if n == '__M__' else (var(lagf) if n == 'LAG_F__' else var(n)))))
-        emitted = to_z3(final[cname], var)
+        intended = to_z3(intended_txt, lambda n: var(referent) if n == '__REF__' else (var(hostx) if n == '__HOSTX__' else (var(second) if n == '__M__' else (var(lagf) if n == 'LAG_F__' else var(n)))), opaque=True)
+        emitted = to_z3(final[cname], var, opaque=True)
         r, mdl = D.decide([intended != emitted], ladder=False, timeout_ms=20000)
     except Untranslatable as e:
         r, mdl = 'sat', None
